@@ -239,9 +239,9 @@ func Fill(name string, p any) {
 
 func fill(name string, v reflect.Value) {
 	v = settable(v)
-	if v.Type() == timeType {
+	if isTime(v.Type()) {
 		s := get(name, 64).Uint64()
-		v.Set(reflect.ValueOf(time.Unix(int64(s), 0)))
+		v.Set(reflect.ValueOf(time.Unix(int64(s), 0)).Convert(v.Type()))
 		return
 	}
 	switch v.Kind() {
@@ -336,7 +336,7 @@ func Eq(a, b any) bool {
 }
 
 func deepEq(a, b reflect.Value) bool {
-	if a.Type() == timeType {
+	if isTime(a.Type()) {
 		ta := *(*time.Time)(unsafe.Pointer(addr(a)))
 		tb := *(*time.Time)(unsafe.Pointer(addr(b)))
 		return ta.Equal(tb)
@@ -420,4 +420,123 @@ func RunReplay(name string, f func()) (outcome string) {
 	}()
 	f()
 	return
+}
+
+var shapers []reflect.Value
+
+func RegisterShaper(f any) {
+	v := reflect.ValueOf(f)
+	for _, s := range shapers {
+		if s.Type() == v.Type() {
+			return
+		}
+	}
+	shapers = append(shapers, v)
+}
+
+func Shape(p any, n int) {
+	shape(reflect.ValueOf(p).Elem(), n, true)
+}
+
+func shape(v reflect.Value, n int, top bool) {
+	v = settable(v)
+	if isTime(v.Type()) {
+		return
+	}
+	{
+		for _, s := range shapers {
+			if s.Type().In(0).Elem() == v.Type() {
+				s.Call([]reflect.Value{v.Addr(), reflect.ValueOf(n)})
+				return
+			}
+		}
+	}
+	switch v.Kind() {
+	case reflect.Struct:
+		for i := 0; i < v.NumField(); i++ {
+			shape(v.Field(i), n, false)
+		}
+	case reflect.Array:
+		if v.Type().Elem().Kind() == reflect.Uint8 {
+			return
+		}
+		for i := 0; i < v.Len(); i++ {
+			shape(v.Index(i), n, false)
+		}
+	case reflect.Slice:
+		if n == 0 {
+			v.Set(reflect.Zero(v.Type()))
+			return
+		}
+		v.Set(reflect.MakeSlice(v.Type(), n, n))
+		if v.Type().Elem().Kind() == reflect.Uint8 {
+			return
+		}
+		for i := 0; i < n; i++ {
+			shape(v.Index(i), n, false)
+		}
+	case reflect.Ptr:
+		if Param("ptrnil", 0) == 1 {
+			v.Set(reflect.Zero(v.Type()))
+			return
+		}
+		v.Set(reflect.New(v.Type().Elem()))
+		shape(v.Elem(), n, false)
+	case reflect.String:
+		if n > 0 {
+			v.SetString(string(make([]byte, n)))
+		}
+	}
+}
+
+func isTime(t reflect.Type) bool {
+	return t == timeType || (t.Kind() == reflect.Struct && t.ConvertibleTo(timeType) && timeType.ConvertibleTo(t))
+}
+
+func ForEach(p any, f any) {
+	fv := reflect.ValueOf(f)
+	forEach(reflect.ValueOf(p).Elem(), fv.Type().In(0).Elem(), fv)
+}
+
+func forEach(v reflect.Value, want reflect.Type, f reflect.Value) {
+	v = settable(v)
+	if v.Type() == want {
+		f.Call([]reflect.Value{v.Addr()})
+		return
+	}
+	if isTime(v.Type()) {
+		return
+	}
+	switch v.Kind() {
+	case reflect.Struct:
+		for i := 0; i < v.NumField(); i++ {
+			forEach(v.Field(i), want, f)
+		}
+	case reflect.Array, reflect.Slice:
+		if v.Type().Elem().Kind() == reflect.Uint8 {
+			return
+		}
+		for i := 0; i < v.Len(); i++ {
+			forEach(v.Index(i), want, f)
+		}
+	case reflect.Ptr:
+		if !v.IsNil() {
+			forEach(v.Elem(), want, f)
+		}
+	case reflect.Interface:
+		if v.IsNil() {
+			return
+		}
+		e := v.Elem()
+		if e.Kind() == reflect.Ptr {
+			if !e.IsNil() {
+				forEach(e.Elem(), want, f)
+			}
+			return
+		}
+		tmp := reflect.New(e.Type()).Elem()
+		tmp.Set(e)
+		forEach(tmp, want, f)
+		v.Set(tmp)
+	}
 }
